@@ -122,4 +122,8 @@ theorem markStale_good {s : Pool} (g : Good W c X s) : Good W c X (markStale s) 
     simp [markStale, Pool.txs, List.map_map, Function.comp_def]
   refine ⟨markStale_ok g.ok, by rw [ht]; exact g.wP, g.wO, g.wB, by unfold AvailX; rw [ht]; exact g.av⟩
 
+theorem staleSpenders_good {s : Pool} (b : Block) (g : Good W c X s) : Good W c X (staleSpenders b s) := by
+  have ht := staleSpenders_txs b s
+  refine ⟨staleSpenders_ok b g.ok, by rw [ht]; exact g.wP, g.wO, g.wB, by unfold AvailX; rw [ht]; exact g.av⟩
+
 end BV.C10.Lemmas
